@@ -23,6 +23,7 @@ var (
 	totalStarts int64
 	totalExits  int64
 	pointCounts     = map[string]int64{}
+	notLive         int64
 )
 
 const HooksEnabled = true
@@ -33,7 +34,18 @@ func init() {
 		if len(reports) < 100 {
 			reports = append(reports, kind+": "+detail)
 		}
+		if kind == "notlive" {
+			notLive++
+		}
+		n := notLive
 		repMu.Unlock()
+		// Lua code that keeps running in a context that is no longer live is not
+		// metered any more and may never stop: abort the run (the panic is
+		// caught by the session's recover wrapper, or ends the child, whose
+		// journal names the case).
+		if n > 100000 {
+			panic("verif monitor: Lua code keeps running in an execution context that is no longer live (" + detail + ")")
+		}
 	}
 	rt.VerifMonitor.Goroutine = func(ev string, t *rt.Thread) {
 		id := rt.VerifThreadID(t)
@@ -89,6 +101,7 @@ func init() {
 
 func ResetReports() {
 	repMu.Lock()
+	notLive = 0
 	reports = nil
 	repMu.Unlock()
 }
